@@ -923,15 +923,16 @@ var jwtPerts = []string{
 	"valid-ancestor-subgroups", "no-exp", "expired", "nbf-future", "iat-future", "other-host",
 	"valid", "aud-string-prefix", "aud-string-prefix", "aud-ancestor-no-subgroups", "aud-descendant", "aud-unrelated",
 	"valid", "aud-no-trailing-slash", "aud-no-trailing-slash", "aud-bad-path", "tampered", "sig-corrupt",
+	"aud-split-across-entries", "valid-second-aud-entry", "aud-split-across-entries",
 }
 
 // rejectedPerts are the perturbation kinds that must have been observed rejected.
 var rejectedPerts = []string{"wrong-key", "alg-mismatch", "other-host", "alg-none", "confusion-rsa", "confusion-ec",
 	"kid-other", "no-keys", "alg-unknown", "no-exp", "expired", "nbf-future", "iat-future", "aud-string-prefix",
 	"aud-ancestor-no-subgroups", "aud-descendant", "aud-unrelated", "aud-no-trailing-slash", "aud-bad-path",
-	"tampered", "sig-corrupt"}
+	"tampered", "sig-corrupt", "aud-split-across-entries"}
 
-var validVariants = []string{"valid", "valid-ancestor-subgroups", "valid-other-host-no-canonical"}
+var validVariants = []string{"valid", "valid-ancestor-subgroups", "valid-other-host-no-canonical", "valid-second-aud-entry"}
 
 type jwtCase struct {
 	Idx       uint64           `json:"index"`
@@ -1001,6 +1002,11 @@ func genJWT(run *vk.Run, idx uint64, host string, base time.Time) (*jwtCase, err
 	r := run.Rand(2, idx)
 	c := &jwtCase{Idx: idx, Host: host}
 	pert := jwtPerts[idx%uint64(len(jwtPerts))]
+	if pert == "aud-split-across-entries" && host == "" {
+		// without a canonical host any host is accepted, so "right group on another host"
+		// alone would be valid: the case only exists when a canonical host is configured
+		pert = "aud-unrelated"
+	}
 	if pert == "other-host" && host == "" {
 		pert = "valid-other-host-no-canonical"
 	}
@@ -1241,6 +1247,30 @@ func genJWT(run *vk.Run, idx uint64, host string, base time.Time) (*jwtCase, err
 		claims["aud"] = []any{aud}
 	} else {
 		claims["aud"] = aud
+	}
+	switch pert {
+	case "aud-split-across-entries":
+		// no single entry names both this server and this group: one names this host with
+		// another group, the other names the wanted group on another host
+		other := "zzother" // first component outside the generator's alphabet: unrelated to the group
+		if r.IntN(2) == 0 {
+			other = "zzother/" + c.Group
+		}
+		e1 := scheme + "://" + host + "/group/" + other + "/"
+		e2 := scheme + "://" + otherHost(r, host) + path
+		if r.IntN(2) == 0 {
+			e1, e2 = e2, e1
+		}
+		claims["aud"] = []any{e1, e2}
+	case "valid-second-aud-entry":
+		// several entries, one of which is fully right
+		other := "zzother"
+		wrong := scheme + "://" + audHost + "/group/" + other + "/"
+		if r.IntN(2) == 0 {
+			claims["aud"] = []any{wrong, aud}
+		} else {
+			claims["aud"] = []any{aud, wrong}
+		}
 	}
 
 	// ---- header, signature --------------------------------------------------
